@@ -2175,7 +2175,7 @@ async def relay_scenario(rig: Rig, case, labels) -> bool:
         # documented accept handler (callable or coroutine) deciding per
         # originating address
         labels.add('accept-' + accept)
-        verdict = accept in ('allow', 'coro-allow')
+        verdict = accept.endswith('allow')
 
         def handler(orig_host, orig_port):
             rig.accept_calls.append((orig_host, orig_port))
@@ -2186,8 +2186,20 @@ async def relay_scenario(rig: Rig, case, labels) -> bool:
             await asyncio.sleep(0)
             return verdict
 
-        rig.accept_handler = coro_handler if accept.startswith('coro') \
-            else handler
+        def future_handler(orig_host, orig_port):
+            # documented type: Callable[[str, int], MaybeAwait[bool]] - any
+            # awaitable, e.g. what run_in_executor() returns
+            rig.accept_calls.append((orig_host, orig_port))
+            fut = rig.loop.create_future()
+            rig.loop.call_soon(fut.set_result, verdict)
+            return fut
+
+        def task_handler(orig_host, orig_port):
+            return rig.loop.create_task(coro_handler(orig_host, orig_port))
+
+        rig.accept_handler = {'coro': coro_handler, 'future': future_handler,
+                              'task': task_handler}.get(
+                                  accept.split('-')[0], handler)
 
     await rig.start()
     bwhere = await rig.start_b(b_unix)
@@ -2217,7 +2229,7 @@ async def relay_scenario(rig: Rig, case, labels) -> bool:
         await rig.must(decoy_lst.wait_closed(), 'close of the second '
                        'forwarding')
 
-    if accept in ('deny', 'coro-deny'):
+    if accept.endswith('deny'):
         a = await open_a(rig, kind, awhere, bwhere, 'A')
         a.write(pat(1, 0, 10))
         await rig.expect(lambda: a.eof, 'permission',
@@ -2573,7 +2585,8 @@ def relay_strategy(tier: str):
         'early': small,
         'banner': small,
         'accept': pick(['none', 'none', 'allow', 'coro-allow',
-                                   'deny', 'coro-deny']),
+                        'deny', 'coro-deny', 'future-allow', 'future-deny',
+                        'task-deny']),
         'bystander': pick([False, False, True]),
         'decoy': pick(['none', 'none', 'before', 'after', 'after',
                        'after-cancelled', 'before-cancelled']),
@@ -3198,6 +3211,8 @@ FAMILIES = [
                                      'bystander', 'pause', 'write>pkt',
                                      'socks-pipelined', 'flood-slow',
                                      'accept-deny', 'accept-allow',
+                                     'accept-future-deny',
+                                     'accept-task-deny',
                                      'decoy-after', 'decoy-before',
                                      'decoy-after-cancelled']},
            case_timeout=120),
